@@ -262,6 +262,19 @@ pub fn run(input: &mut dyn BufRead, out: &mut dyn Write, _args: &[String]) -> R 
                     if let Some(f) = filt {
                         a = a.with_filter(crate::m_filter::http_filter(f));
                     }
+                    // "split": the capture comes as two files (rotated at frame k), analysed one after the other by the same analyzer
+                    if let Some(k) = v["split"].as_u64() {
+                        let k = (k as usize).min(frames.len());
+                        let p2 = format!("{path}.2");
+                        write_pcap(&path, &frames[..k]).expect("write pcap");
+                        write_pcap(&p2, &frames[k..]).expect("write pcap");
+                        let (tx2, rx2) = std::sync::mpsc::channel();
+                        let r1 = a.analyze_pcap(&path, tx, None);
+                        let r2 = a.analyze_pcap(&p2, tx2, None);
+                        let _ = std::fs::remove_file(&p2);
+                        let out: Vec<Value> = rx.try_iter().chain(rx2.try_iter()).map(|r| http_result_to(&r)).collect();
+                        return json!({"ok": r1.is_ok() && r2.is_ok(), "results": out});
+                    }
                     let res = a.analyze_pcap(&path, tx, None);
                     let out: Vec<Value> = rx.try_iter().map(|r| http_result_to(&r)).collect();
                     json!({"ok": res.is_ok(), "results": out})
@@ -380,6 +393,18 @@ pub fn run(input: &mut dyn BufRead, out: &mut dyn Write, _args: &[String]) -> R 
                         a = a.with_filter(crate::m_filter::tcp_filter(f));
                     }
                     let (tx, rx) = std::sync::mpsc::channel();
+                    if let Some(k) = v["split"].as_u64() {
+                        let k = (k as usize).min(frames.len());
+                        let p2 = format!("{path}.2");
+                        write_pcap(&path, &frames[..k]).expect("write pcap");
+                        write_pcap(&p2, &frames[k..]).expect("write pcap");
+                        let (tx2, rx2) = std::sync::mpsc::channel();
+                        let r1 = a.analyze_pcap(&path, tx, None);
+                        let r2 = a.analyze_pcap(&p2, tx2, None);
+                        let _ = std::fs::remove_file(&p2);
+                        let out: Vec<Value> = rx.try_iter().chain(rx2.try_iter()).map(|r| uni_to(&r)).collect();
+                        return json!({"ok": r1.is_ok() && r2.is_ok(), "results": out});
+                    }
                     let res = a.analyze_pcap(&path, tx, None);
                     let out: Vec<Value> = rx.try_iter().map(|r| uni_to(&r)).collect();
                     json!({"ok": res.is_ok(), "results": out})
